@@ -15,6 +15,9 @@ import Rdm.Props.C16
 import Rdm.Props.C17
 import Rdm.Props.C18
 import Rdm.Props.C19
+import Rdm.Lemmas.E2EBiases
+import Rdm.Lemmas.E2EBiasesState
+import Rdm.Lemmas.E2EBiasesExample
 namespace Rdm.Props.C09
 open Rdm
 
@@ -122,5 +125,152 @@ theorem anchoring_inline_report_is_new_minus_old {α : Type} [Num α] {b : Bound
         a'.vals.get? cs.1 = some (inlineValue b cs.2.2 v mean) ∧
         d'.vals.get? cs.1 = some (inlineValue b cs.2.2 v mean - v) :=
   Rdm.Props.C19.inline_applier_shifts_every_criterion_and_reports_new_minus_old h hnd
+
+/-! ### END TO END: the response of a whole request is a hand-over chain
+
+`process_is_chain` is about the loop with an arbitrary `apply`.  Below it is instantiated at the model of
+`MakeDecision` (`decideWith`, Model/Decide.lean) and cut at an arbitrary fired entry: the state `s` that entry
+received and the state `s'` it handed on exist, are unique, and are tied to the response by the chain before and
+the chain after the entry.  The per-bias END-TO-END theorems of Props/C15 … C19 are stated about exactly this pair
+`(s, s')` (through `E2EBFired`, Lemmas/E2EBiases.lean, which says the same with runs of the model's own loop;
+`fired_entry_cuts_the_chain` is its `Chain` form). -/
+
+section e2e
+variable {α : Type} [Num α] {exp : α → α} {o : List (WCrit α) → List (WCrit α)} {req : Request α}
+  {g : Int → Draws α} {resp : Response α}
+
+/-- **M1.**  Every successful `decideWith` is a hand-over chain from the state `prepare` builds from the request
+    to the state the method evaluates: over the enabled biases in request order, every fired bias receives what
+    the previous fired bias returned (with `original` = the request's state), the reports in the response are the
+    reports the biases returned, and `resp.result` is `Evaluate` of the last state. -/
+theorem decision_is_a_hand_over_chain (h : decideWith exp o req g = .ok resp) :
+    ∃ params chosen, prepare req = .ok (params, chosen) ∧
+      Chain (applyBias exp g) params chosen params resp.biases resp.final ∧
+      evaluateWith o g resp.final = .ok resp.result := by
+  obtain ⟨params, chosen, hprep, hrun, hev⟩ := e2eb_decide_run h
+  exact ⟨params, chosen, hprep, process_is_chain _ _ _ _ _ _ _ hrun, hev⟩
+
+/-- `E2EBFired` in `Chain` form -/
+theorem fired_is_a_cut_of_the_chain {params s s' : DMP α} {chosen : List (Chosen α (BProps α))} {i : Nat}
+    {b : Chosen α (BProps α)} {rep : Report α}
+    (hf : E2EBFired exp g req resp params chosen i b rep s s') :
+    Chain (applyBias exp g) params (chosen.take i) params (resp.biases.take i) s ∧
+      applyBias exp g b.name b.props params s = .ok (s', rep) ∧
+      Chain (applyBias exp g) params (chosen.drop (i + 1)) s' (resp.biases.drop (i + 1)) resp.final :=
+  ⟨process_is_chain _ _ _ _ _ _ _ hf.before, hf.step, process_is_chain _ _ _ _ _ _ _ hf.after⟩
+
+/-- **M1, indexed form.**  For every position `i` of `resp.biases` whose entry carries a report `rep` there are
+    states `s`, `s'` with `applyBias … name props params s = .ok (s', rep)` (`props` the props of the `i`-th
+    enabled bias of the request), a hand-over chain over the biases before `i` from the request's state to `s`,
+    and a hand-over chain over the biases after `i` from `s'` to the state the method evaluates. -/
+theorem fired_entry_cuts_the_chain (h : decideWith exp o req g = .ok resp) {i : Nat} {name : String}
+    {prob : α} {rep : Report α} (hi : resp.biases[i]? = some ⟨name, prob, some rep⟩) :
+    ∃ params chosen props s s', prepare req = .ok (params, chosen) ∧ chosen[i]? = some ⟨name, prob, props⟩ ∧
+      Chain (applyBias exp g) params (chosen.take i) params (resp.biases.take i) s ∧
+      applyBias exp g name props params s = .ok (s', rep) ∧
+      Chain (applyBias exp g) params (chosen.drop (i + 1)) s' (resp.biases.drop (i + 1)) resp.final := by
+  obtain ⟨params, chosen, props, s, s', hf⟩ := e2eb_fired h hi
+  obtain ⟨h1, h2, h3⟩ := fired_is_a_cut_of_the_chain hf
+  exact ⟨params, chosen, props, s, s', hf.prepared, hf.entry, h1, h2, h3⟩
+
+omit [Num α] in
+/-- a chain none of whose entries carries a report ends in the state it started in -/
+theorem chain_without_report_hands_on_unchanged {S P Rep : Type} {apply : String → P → S → S → R (S × Rep)}
+    {orig : S} {chosen : List (Chosen α P)} {s fin : S} {outs : List (BiasOut α Rep)}
+    (hc : Chain apply orig chosen s outs fin) (hn : ∀ x ∈ outs, x.report = none) : fin = s := by
+  induction hc with
+  | nil _ => rfl
+  | fired b rest s s' fin rep outs _ _ _ => exact absurd (hn _ List.mem_cons_self) (by simp)
+  | skipped b rest s fin outs _ ih => exact ih fun x hx => hn x (List.mem_cons_of_mem _ hx)
+
+/-- **`s` is the state handed on by the previous fired bias, or the request's state; `s'` goes to the next fired
+    bias, or to the method**: in one response, let `i` be a fired position with states `(s, s')`.
+    * no entry before `i` carries a report ⇒ `s` is the state built from the request;
+    * `j < i` is a fired position with states `(sj, sj')` and no entry strictly between carries a report ⇒ `s = sj'`;
+    * no entry after `i` carries a report ⇒ the method evaluates `s'`. -/
+theorem fired_entry_receives_the_previous_hand_over {params s s' : DMP α}
+    {chosen : List (Chosen α (BProps α))} {i : Nat} {b : Chosen α (BProps α)} {rep : Report α}
+    (hf : E2EBFired exp g req resp params chosen i b rep s s') :
+    ((∀ j < i, ∀ x, resp.biases[j]? = some x → x.report = none) → s = params) ∧
+    (∀ j bj repj sj sj', E2EBFired exp g req resp params chosen j bj repj sj sj' → j < i →
+      (∀ k, j < k → k < i → ∀ x, resp.biases[k]? = some x → x.report = none) → s = sj') ∧
+    ((∀ j, i < j → ∀ x, resp.biases[j]? = some x → x.report = none) → resp.final = s') :=
+  ⟨e2eb_fired_first hf, fun _ _ _ _ _ hj hji hn => e2eb_fired_prev hf hj hji hn, e2eb_fired_last hf⟩
+
+/-- the states of a fired position are unique: two descriptions of position `i` of one response agree -/
+theorem fired_entry_states_are_unique {params params2 s s' s2 s2' : DMP α}
+    {chosen chosen2 : List (Chosen α (BProps α))} {i : Nat} {b b2 : Chosen α (BProps α)} {rep rep2 : Report α}
+    (h1 : E2EBFired exp g req resp params chosen i b rep s s')
+    (h2 : E2EBFired exp g req resp params2 chosen2 i b2 rep2 s2 s2') : s2 = s ∧ s2' = s' :=
+  ⟨(e2eb_fired_unique h1 h2).2.2.2.2.1, (e2eb_fired_unique h1 h2).2.2.2.2.2⟩
+
+/-- a report in the response is a report of the bias its entry names (the constructor of the report determines
+    the bias) -/
+theorem report_is_of_the_named_bias {params s s' : DMP α} {chosen : List (Chosen α (BProps α))} {i : Nat}
+    {b : Chosen α (BProps α)} {rep : Report α} (hf : E2EBFired exp g req resp params chosen i b rep s s') :
+    match rep with
+    | .omission _ => b.name = Facts.biasOmission
+    | .reversal _ => b.name = Facts.biasReversal
+    | .fatigue _ => b.name = Facts.biasFatigue
+    | .conceal _ => b.name = Facts.biasConcealment
+    | .mixing _ => b.name = Facts.biasMixing
+    | .anchoring _ => b.name = Facts.biasAnchoring := by
+  cases rep with
+  | omission om => exact (e2eb_fired_omission hf).1
+  | reversal r => exact (e2eb_fired_reversal hf).1
+  | fatigue r => exact (e2eb_fired_fatigue hf).1
+  | conceal r => exact (e2eb_fired_conceal hf).1
+  | mixing r => exact (e2eb_fired_mixing hf).1
+  | anchoring r => exact (e2eb_fired_anchoring hf).1
+
+end e2e
+
+/-- the hypotheses are satisfiable: a request in which a fatigue fires, an entry does not fire and an omission
+    fires — positions 0 and 2 are fired positions of the response, and the state the omission received is the
+    state the fatigue handed on -/
+example : ∃ resp n0 p0 r0 n2 p2 r2 params chosen pr0 pr2 s0 s0' s2 s2',
+    Rdm.decide id (e2ebExReq [e2ebExFatigue, e2ebExSkipped, e2ebExOmission]) e2ebExSeeds = .ok resp ∧
+    resp.biases[0]? = some ⟨n0, p0, some r0⟩ ∧ resp.biases[2]? = some ⟨n2, p2, some r2⟩ ∧
+    E2EBFired id (genOf e2ebExSeeds) (e2ebExReq [e2ebExFatigue, e2ebExSkipped, e2ebExOmission]) resp params chosen 0
+      ⟨n0, p0, pr0⟩ r0 s0 s0' ∧
+    E2EBFired id (genOf e2ebExSeeds) (e2ebExReq [e2ebExFatigue, e2ebExSkipped, e2ebExOmission]) resp params chosen 2
+      ⟨n2, p2, pr2⟩ r2 s2 s2' ∧
+    s0 = params ∧ s2 = s0' ∧ resp.final = s2' := by
+  obtain ⟨resp, n2, p2, r2, hr, h2, _, n0, p0, r0, h0⟩ := e2eb_firedWith
+    (r := Rdm.decide id (e2ebExReq [e2ebExFatigue, e2ebExSkipped, e2ebExOmission]) e2ebExSeeds)
+    (j := 0) (i := 2) (k := fun _ => true) (by decide +kernel)
+  have hmid : ∀ x, resp.biases[1]? = some x → x.report = none := by
+    have hb : (match Rdm.decide id (e2ebExReq [e2ebExFatigue, e2ebExSkipped, e2ebExOmission]) e2ebExSeeds with
+        | .ok r => (match r.biases[1]? with | some x => x.report.isNone | none => true) && r.biases.length == 3
+        | .error _ => false) = true := by decide +kernel
+    change (match Rdm.decide id (e2ebExReq [e2ebExFatigue, e2ebExSkipped, e2ebExOmission]) e2ebExSeeds with
+        | .ok r => (match r.biases[1]? with | some x => x.report.isNone | none => true) && r.biases.length == 3
+        | .error _ => false) = true at hb
+    rw [hr] at hb
+    intro x hx
+    simp only [hx, Bool.and_eq_true] at hb
+    simpa using hb.1
+  have hlen : resp.biases.length = 3 := by
+    have hb : (match Rdm.decide id (e2ebExReq [e2ebExFatigue, e2ebExSkipped, e2ebExOmission]) e2ebExSeeds with
+        | .ok r => r.biases.length == 3
+        | .error _ => false) = true := by decide +kernel
+    rw [hr] at hb
+    simpa using hb
+  obtain ⟨params, chosen, pr2, s2, s2', hf2⟩ := e2eb_fired hr h2
+  obtain ⟨params', chosen', pr0, s0, s0', hf0⟩ := e2eb_fired hr h0
+  have hp := hf2.prepared.symm.trans hf0.prepared
+  simp only [Except.ok.injEq, Prod.mk.injEq] at hp
+  obtain ⟨rfl, rfl⟩ := hp
+  refine ⟨resp, n0, p0, r0, n2, p2, r2, params, chosen, pr0, pr2, s0, s0', s2, s2', hr, h0, h2, hf0, hf2, ?_, ?_, ?_⟩
+  · exact e2eb_fired_first hf0 (fun j hj => absurd hj (by omega))
+  · refine e2eb_fired_prev hf2 hf0 (by omega) ?_
+    intro k hk1 hk2 x hx
+    have : k = 1 := by omega
+    subst this
+    exact hmid x hx
+  · refine e2eb_fired_last hf2 ?_
+    intro j hj x hx
+    have := (List.getElem?_eq_some_iff.mp hx).1
+    omega
 
 end Rdm.Props.C09
